@@ -2,7 +2,7 @@
 import ast
 
 from ..core import AnalysisError, src, qualname_of
-from ..pysym import SymExec, show, subterms
+from ..pysym import SymExec, show, subterms, all_calls, terms_of
 from ..rules_pyx import N, C, A
 from .. import rules_pyx as rp
 from .. import rules_cxx as rc
@@ -125,47 +125,51 @@ def r_gather(repo, rep, R='R11.3'):
     txt = src(fn)
     banned = [b for b in ('imap_unordered', 'as_completed', 'callback=', 'map_async', 'imap(') if b in txt]
     rep.check(not banned, R, w, 'run:no-unordered-api', 'no completion-ordered collection API is used', 'uses %s' % banned)
+    is_submit = lambda c: c[1][0] == 'attr' and c[1][2] == 'apply_async'
     pooled = None
     for st, o in SymExec(fn, unroll=1).run():
-        if any(e[0] == 'call' and e[1][1][0] == 'attr' and e[1][1][2] == 'apply_async' for e in st.events) and o == 'return':
+        if o == 'return' and any(is_submit(c) for c in all_calls(st)):
             pooled = st
     if pooled is None:
         rep.violation(R, w, 'run:pooled-path', 'no returning path submits work with apply_async')
         return
     st = pooled
-    chunks_call = [e[1] for e in st.events if e[0] == 'call' and e[1][1] == N('_chunks')]
+    calls = all_calls(st)
+    chunks_call = [c for c in calls if c[1] == N('_chunks')]
     zipped = ('call', N('list'), (('call', N('zip'), (st.env.get('doc', N('doc')), st.env.get('score_results', N('score_results'))), ()),), ())
     ok = bool(chunks_call) and chunks_call[0][2][0] == zipped
     rep.check(ok, R, w, 'run:chunk-source', 'the batch is chunked as the list of (sentence, scores) pairs in input order',
               'chunks are taken from %s' % (show(chunks_call[0][2][0])[:80] if chunks_call else None))
-    sub = [e[1] for e in st.events if e[0] == 'call' and e[1][1][0] == 'attr' and e[1][1][2] == 'apply_async']
+    sub = [c for c in calls if is_submit(c)]
     kw = dict(sub[0][3])
     args_t = kw.get('args')
-    loop = [e for e in st.events if e[0] == 'loop-enter' and e[1][0] == 'call' and e[1][1] == N('enumerate')]
+    # the task list: one submission per chunk, in chunk order (a comprehension, or a loop appending to a fresh list)
+    tasks = [t for t in (x for y in terms_of(st) for x in subterms(y)) if t[0] == 'listcomp' and len(t[2]) == 1 and t[1] == sub[0]]
     okargs = False
-    if args_t is not None and loop:
-        elem = ('elem', loop[0][1], loop[0][2].lineno)
-        chunk = ('unpack', elem, 1)
-        z = ('call', N('zip'), (('star', chunk),), ())
-        want_head = ('tuple', (('call', N('list'), (('unpack', z, 0),), ()), ('call', N('list'), (('unpack', z, 1),), ())))
-        okargs = args_t[0] == 'binop' and len(args_t) == 4 and args_t[1] == '+' and args_t[2] == want_head and bool(sub[0][2]) and sub[0][2][0] == A(A(N('depccg'), '_parsing'), 'run')
+    oktasks = False
+    if args_t is not None and tasks:
+        en, filt = tasks[0][2][0]
+        oktasks = en[0] == 'call' and en[1] == N('enumerate') and bool(chunks_call) and en[2] == (chunks_call[0],) and not en[3] and not filt
+        elems = [x for x in subterms(args_t) if x[0] == 'elem' and x[1] == en]
+        if elems:
+            chunk = ('unpack', elems[0], 1)
+            z = ('call', N('zip'), (('star', chunk),), ())
+            want_head = (('call', N('list'), (('unpack', z, 0),), ()), ('call', N('list'), (('unpack', z, 1),), ()))
+            okargs = args_t[0] == 'binop' and len(args_t) == 4 and args_t[1] == '+' and args_t[2] == ('tuple', want_head) \
+                and bool(sub[0][2]) and sub[0][2][0] == A(A(N('depccg'), '_parsing'), 'run')
     rep.check(okargs, R, w, 'run:chunk-args', 'each worker gets the sentences and the scores of its own chunk, in chunk order', 'worker args are %s' % (show(args_t)[:120] if args_t else None))
-    apps = [e[1] for e in st.events if e[0] == 'call' and e[1][1][0] == 'attr' and e[1][1][2] == 'append' and e[1][2] and e[1][2][0] == sub[0]]
-    rep.check(bool(apps) and apps[0][1][1][0] == 'alloc', R, w, 'run:tasks-in-order', 'tasks are appended to a fresh list in submission (= chunk) order',
-              'tasks are not appended in submission order')
+    rep.check(oktasks, R, w, 'run:tasks-in-order', 'one task per chunk, kept in a list in submission (= chunk) order',
+              'tasks are not kept one per chunk in submission order')
     ret = st.ret
-    ok = ret is not None and ret[0] == 'listcomp' and len(ret[2]) == 2 and apps and ret[2][0][0] == apps[0][1][1] and not ret[2][0][1] and \
-        ret[2][1][0] == ('call', A(('elem', ret[2][0][0], None), 'get'), (), ()) if False else None
-    # structural check on the comprehension
-    comp = [n for n in ast.walk(fn) if isinstance(n, ast.ListComp) and len(n.generators) == 2]
     okc = False
-    if comp:
-        g0, g1 = comp[-1].generators
-        okc = src(g0.iter) == 'tasks' and src(g1.iter) == '%s.get()' % src(g0.target) and src(comp[-1].elt) == src(g1.target) and not g0.ifs and not g1.ifs
+    if ret is not None and ret[0] == 'listcomp' and len(ret[2]) == 2 and tasks:
+        (t_it, t_f), (r_it, r_f) = ret[2]
+        okc = t_it == tasks[0] and not t_f and not r_f and r_it[0] == 'call' and not r_it[2] and not r_it[3] and r_it[1][0] == 'attr' \
+            and r_it[1][2] == 'get' and r_it[1][1][0] == 'elem' and r_it[1][1][1] == t_it and ret[1][0] == 'elem' and ret[1][1] == r_it
     rep.check(okc, R, w, 'run:gather-in-order', 'results are collected by walking the task list in order and concatenating each task\'s results',
-              'results are not gathered as [r for task in tasks for r in task.get()]')
+              'results are not gathered as [r for task in tasks for r in task.get()]: %s' % (show(ret)[:100] if ret else None))
     # direct path
-    direct = [st2 for st2, o in SymExec(fn, unroll=1).run() if o == 'return' and not any(e[0] == 'call' and e[1][1][0] == 'attr' and e[1][1][2] == 'apply_async' for e in st2.events)]
+    direct = [st2 for st2, o in SymExec(fn, unroll=1).run() if o == 'return' and not any(is_submit(c) for c in all_calls(st2))]
     okd = bool(direct) and direct[0].ret is not None and direct[0].ret[0] == 'call' and direct[0].ret[1] == A(A(N('depccg'), '_parsing'), 'run') and \
         direct[0].ret[2][:2] == (direct[0].env.get('doc'), direct[0].env.get('score_results'))
     rep.check(okd, R, w, 'run:direct', 'a small batch is parsed in-process with the whole (doc, scores) in order', 'direct path returns %s' % (show(direct[0].ret)[:80] if direct else None))
